@@ -146,14 +146,18 @@ func (e *exec) hb() {
 			}
 			continue
 		}
-		var want []time.Duration
-		for k := time.Duration(1); k*period <= period*7/2; k++ {
-			if k*period > tc.openAt {
-				want = append(want, k*period)
+		// spaced by the configured period for as long as the channel is open: the first one no
+		// later than one period after the channel opened, then exactly one per period until the
+		// horizon (when exactly the first one is sent is not prescribed)
+		horizon := period*7/2 + period/10
+		okSpacing := len(ts) > 0 && ts[0] <= tc.openAt+period && ts[len(ts)-1] > horizon-period
+		for i := 1; i < len(ts); i++ {
+			if ts[i]-ts[i-1] != period {
+				okSpacing = false
 			}
 		}
-		if fmt.Sprint(ts) != fmt.Sprint(want) {
-			e.fail("channel %s (open since %v): heartbeats written at %v, want one per period at %v", tc.c.Name, tc.openAt, ts, want)
+		if !okSpacing {
+			e.fail("channel %s (open since %v, observed until %v): heartbeats written at %v, want one per period %v", tc.c.Name, tc.openAt, horizon, ts, period)
 		}
 		if pr := sx.CheckOriginated(frames, 10, 33, true, nil, 0); pr != "" {
 			e.fail("channel %s: %s", tc.c.Name, pr)
